@@ -17,7 +17,9 @@ Places == { [level |-> 0, self |-> FALSE, inloc |-> FALSE], [level |-> 0, self |
 \* (inside block loc the attribute being edited has loc's own any-expression constraint of dynamic type)
 \* inside an expression form only under an any-expression constraint (the other constraints do not admit the form), with some text typed
 \* (a typed text ending in "." is only meaningful in the plain form: elsewhere the parser returns no expression of that form)
+\* (a comparison or an equality is only admitted where a bool is: not under a number)
 FormOK(c, t, p, f) == f = "plain" \/ (c.k = "any" /\ c.t \in {"string", "number", "bool", "dynamic"} /\ ~p.inloc
+                                      /\ (f \in {"cmpr", "cmpl", "eqr"} => c.t # "number")
                                       /\ t \in {"l", "loc.s", "loc.o", "loc.l", "s", "self.p", "self.t", "b", "u", "mk", "t", "f", "k", "zz", "d.t"})
 Init == \E c \in Cons, t \in Typed, p \in Places, f \in Forms :
           (p.inloc => c = AnyC("dynamic")) /\ FormOK(c, t, p, f) /\ case = [cons |-> c, typed |-> t, place |-> p, form |-> f, exp |-> ExpType(c, f)]
